@@ -246,6 +246,33 @@ func (e *enc) mergeInto(b *ssa.BasicBlock, r string) {
 		if _, known := e.heapSort[a]; !known {
 			continue
 		}
+		if isHeader && (a == "G_held" || a == "G_rheld") && mod[a] {
+			// loops leave the lock set as they find it: assumed at the head, checked on every back edge
+			if len(preds) > 0 {
+				e.heap[a] = e.heapAt[preds[0]][a]
+				if len(preds) > 1 {
+					nv := e.bump(a)
+					for _, p := range preds {
+						e.assume(fmt.Sprintf("(=> (and %s %s) (= %s %s))", e.reach[p], e.edgeCond(p, b), nv, e.hnameIn(a, e.heapAt[p])))
+					}
+				}
+				e.lockLoops = append(e.lockLoops, lockLoop{b, a, e.heap[a]})
+			}
+			continue
+		}
+		if isHeader && !mod[a] && all && e.w.immutableArr(a) {
+			// constructor-only fields of pre-existing objects do not change (see havocHeap)
+			vers := map[int]bool{}
+			for _, p := range preds {
+				vers[e.heapAt[p][a]] = true
+			}
+			if len(vers) == 1 {
+				for v := range vers {
+					e.heap[a] = v
+				}
+				continue
+			}
+		}
 		if isHeader && (mod[a] || (all && (!isGhostArr(a) || a == "G_now"))) {
 			// havoc at loop head; G_now only grows
 			var lo string
@@ -600,7 +627,31 @@ func constantInt(c *ssa.Const) (int64, bool) {
 	return c.Int64(), true
 }
 
+type lockLoop struct {
+	h   *ssa.BasicBlock
+	arr string
+	ver int
+}
+
+func (e *enc) lockLoopObligations() {
+	for _, ll := range e.lockLoops {
+		for _, p := range ll.h.Preds {
+			if !e.back[[2]*ssa.BasicBlock{p, ll.h}] || e.reach[p] == "" {
+				continue
+			}
+			path := fmt.Sprintf("(and %s %s)", e.reach[p], e.edgeCond(p, ll.h))
+			goal := fmt.Sprintf("(= %s |%s@%d|)", e.hnameIn(ll.arr, e.heapAt[p]), ll.arr, ll.ver)
+			pos := token.NoPos
+			if len(p.Instrs) > 0 {
+				pos = e.nearPos(p.Instrs[len(p.Instrs)-1])
+			}
+			e.add("lock", fmt.Sprintf("loop-balance:loop%d", e.headers[ll.h]), pos, path, goal)
+		}
+	}
+}
+
 func (e *enc) loopObligations() {
+	e.lockLoopObligations()
 	if e.fc == nil {
 		return
 	}
